@@ -13,7 +13,7 @@ RULE = ("writer runs: 1..300 records (mostly 1..20), names of 1-5 non-blank prin
         "fit the field (zero, k+0.5 units rounding boundaries, the widest value that fits, tiny values rounding to +-0, "
         "integers, log-uniform magnitudes, both signs) and, in K only, values too wide for the field; decimals 1..6 or the "
         "default format, velocities on/off, box default / 3-vector / diagonal 3x3 / triclinic (tiny and negative-zero "
-        "off-diagonals included), title default / random printable / with trailing newline, count declared or not; a "
+        "off-diagonals included), title default / random printable / with trailing newline / empty / a bare newline, count declared or not; a "
         "malformed writer stream (velocity mismatch between records, wrong declared count). A case is non-trivial when "
         "distinct.")
 
@@ -178,6 +178,11 @@ CORPUS = [
      [(1, "A", "B", 1, 1.234565, -2.5, 0.000004), (1, "A", "C", 2, 9999.999994, -999.999994, -0.000004)]),
     ({"title": None, "natoms": None, "fmt": (7, 2), "box": ("default",)},
      [(7, "LIG", "C1", 7, 0.125, 0.135, -0.005, 0.0625, -0.0005, 99.9994)]),
+    # empty title (IndexError on comment[-1] before efbff8f), given as '' and as a bare newline
+    ({"title": "", "natoms": None, "fmt": None, "box": ("vec", [2.0, 2.0, 2.0])},
+     [(1, "SOL", "OW", 1, 0.1, 0.2, 0.3), (1, "SOL", "HW1", 2, 0.4, 0.5, 0.6)]),
+    ({"title": "\n", "natoms": 1, "fmt": (9, 4), "box": ("default",)},
+     [(1, "SOL", "OW", 1, 0.1, 0.2, 0.3, -0.01, 0.02, 0.03)]),
 ]
 
 
